@@ -161,7 +161,7 @@ def check(world, tier):
             t.ob(ok, "server-new-invariant", "Server::new does not establish 512 <= largest_block_size <= 65464",
                  sample={"Server::new largest_block_size": lin.show(v[1]) if v is not None and v[0] == "i" else repr(v)})
         writers = static_field_writes(prog, SERVER, fi["largest_block_size"])
-        t.need(len(writers), 2, "writers of Server.largest_block_size")
+        t.need(len(writers), 1, "writers of Server.largest_block_size")
         region_bodies = set(e.body for e in eng.events if e.region == "listener") | set([LISTEN])
         for (bp, bi, kind, loc) in writers:
             ok = bp == new or bp in region_bodies
